@@ -37,6 +37,8 @@ def expected_registrations : List String := [
   "bytes_repr_type <- register_serializer(ty._GenericAlias)",
   "bytes_repr_type <- register_serializer(ty._SpecialForm)",
   "bytes_repr_type <- register_serializer(type)",
+  "bytes_repr_type <- register_serializer(types.GenericAlias)",
+  "bytes_repr_type <- register_serializer(types.UnionType)",
   "stmt: register_serializer(types.UnionType)(bytes_repr_type)"
 ]
 
@@ -53,9 +55,9 @@ def expected_sources : List (String × String) := [
   ("hash.bytes_repr_float", "bdedd989a175959db35455c6"),
   ("hash.bytes_repr_complex", "56c97d2137b7ec31f24f5e84"),
   ("hash.bytes_repr_dict", "a3f977422388c1c78bc2996e"),
-  ("hash.bytes_repr_type", "8db4c26087d9a7e16d05e7b4"),
+  ("hash.bytes_repr_type", "9718492fe0f4ccb2b77e2954"),
   ("hash.bytes_repr_seq", "2a12dbfdbdfcbfe2865d7c2a"),
-  ("hash.bytes_repr_set", "05fb4a7b88c4d7b3bb3b283f"),
+  ("hash.bytes_repr_set", "d4ac405f564d4af41c53ed2c"),
   ("hash.bytes_repr_code", "e03593b5287cabda61ec5b6f"),
   ("hash.bytes_repr_function", "d3de66588dcc19b07d9e2ff8"),
   ("hash.bytes_repr_mapping_contents", "c89e0244d1924bd14076300b"),
